@@ -1,7 +1,7 @@
 (** M-SORT, part 2 -- a concrete change set with enum objects (non-vacuity of the C04_*_objects theorems). *)
 From Coq Require Import List Bool Arith Lia Permutation Sorted.
 From Atlas Require Import Plan.SortModel Plan.SortDfs Plan.SortReplay Plan.SortProofs Plan.SortExamples
-  Plan.SortObjModel Plan.SortObjProofs.
+  Plan.SortObjModel Plan.SortObjProofs Plan.SortObjTypes.
 Import ListNotations.
 
 (* enum 0 is created and used by the created table 1 and by a new column of the kept table 0; enum 1 is dropped,
@@ -37,3 +37,24 @@ Lemma ox_runs :
   (* the input order itself fails on the type half of the catalogue (DROP TYPE 1 while table 2 uses it) *)
   treplay ox_cs ox_types = None.
 Proof. vm_compute. repeat split; reflexivity. Qed.
+
+Lemma ox_tcons : tconsistent ox_types ox_cs.
+Proof.
+  constructor; simpl.
+  - repeat constructor; simpl; intuition discriminate.
+  - intros n [<-|[]] [H|[]]; discriminate.
+  - repeat constructor; simpl; intuition discriminate.
+  - intros n [<-|[]]. left. reflexivity.
+  - intros p Hp. vm_compute in Hp.
+    repeat (destruct Hp as [<-|Hp]); try (destruct Hp; fail); simpl;
+      (split; [intros [H|[]]; discriminate|right; exists (mkE 0 1); repeat split; auto 10]).
+  - intros u e Hu He Hs. vm_compute in Hu.
+    repeat (destruct He as [He|He]); try discriminate; try (destruct He; fail).
+    injection He as <-.
+    destruct Hu as [<-|[<-|[]]].
+    + right. exists (mkE 1 2). split; [vm_compute; auto 10|reflexivity].
+    + left. exists (mkE 1 2). split; [vm_compute; auto 10|reflexivity].
+Qed.
+
+Lemma ox_xcons : xconsistent (mkXC ox_cat (fst ox_types) (snd ox_types)) ox_cs.
+Proof. split; [exact ox_cons|exact ox_tcons]. Qed.
